@@ -160,6 +160,7 @@ func genSlices(repo, out string) error {
 		if err != nil {
 			return fmt.Errorf("untranslatable: %s:0: does not parse: %v", fn, err)
 		}
+		normalizeFile(g.fset, f)
 		files = append(files, f)
 	}
 	lean := map[string]string{}
